@@ -617,6 +617,14 @@ fn run_case(cfg: &Value, case: &Value, ln: usize) -> (Vec<Mismatch>, Value, Vec<
     let terminal = fin["terminal"].as_bool().unwrap_or(false) && !hung;
     let atrace = rec.finish(cap, terminal);
     // tear down: abort every parked thread (a thread may park again while unwinding)
+    // (after a hang nothing of the channel may be touched from here: the thread that hangs may sit inside a critical
+    // section - dropping the sender, a metrics sample or an unwinding receiver would wait for the same lock for ever;
+    // everything of this case is leaked instead)
+    if hung {
+        std::mem::forget(sender_opt.take());
+        emit_batcher::verif::install(None);
+        return (mism, json!(trace), atrace);
+    }
     drop(sender_opt.take());
     let mut leaked = false;
     // the flush0 thread becomes its same-thread followers one after the other unless it was aborted
